@@ -13,7 +13,7 @@ ID = "C13"
 RULE = (
     "Values from C01's numeric domain with |x| < 10^15 plus exact ties at every place, powers of ten +- one unit, values that "
     "carry (999.995), +-0.0 and values that round to zero; formats through set_cell_formatting: number/percentage (places "
-    "0..10 or automatic, separator, 4 negative styles), currency (every code in the library's table, accounting on/off under each of the four negative styles), "
+    "0..10 or automatic, separator, 4 negative styles), currency (every code in the library's table, accounting on/off under each of the four negative styles; half of the cells that get several formats in turn are displayed under each earlier format first), "
     "scientific (places 0..10), base (2..36, places 0..8, minus sign / two's complement for 2, 8, 16), fraction (9 accuracies), "
     "rating (0..5, whole and fractional). One cell in six is first given another generated format, then the one under test (the last format decides). 150..400 (value, format) cells per document; formatted_value is read on the open document and after save+"
     "reopen (both must agree). Oracle (vf/numfmt.py): decoration stripped by notation, the text read as an exact Fraction P, "
@@ -118,6 +118,8 @@ def check_document(ctx, case):
     cells = case["cells"]
     tmp = Path(tempfile.mkdtemp(prefix="vf_c13_"))
     try:
+        shown_between = set()
+
         def build():
             doc = Document(num_rows=max(2, len(cells)), num_cols=2, num_header_rows=0, num_header_cols=0)
             t = doc.sheets[0].tables[0]
@@ -127,6 +129,11 @@ def check_document(ctx, case):
                     t.write(i, 0, gens.from_json(vj))
                     for k0, kw0 in prior:  # formats applied earlier to the same cell: the last one decides
                         t.set_cell_formatting(i, 0, k0, **_fmt_kwargs(k0, kw0))
+                        if len(repr(vj)) % 2 == 0:
+                            # the cell is displayed under the earlier format before it gets the next one (decided by the case's
+                            # content, so that a single-cell replay does the same)
+                            _ = t.cell(i, 0).formatted_value
+                            shown_between.add(i)
                     t.set_cell_formatting(i, 0, kind, **_fmt_kwargs(kind, kw))
             return doc
 
@@ -141,6 +148,8 @@ def check_document(ctx, case):
             ctx.ev()
             if prior:
                 ctx.count("reformatted_cells")
+            if i in shown_between:
+                ctx.count("reformatted_cells_displayed_in_between")
             text = ctx.guard(("C13", "formatted_value_raised", kind), sub, lambda: t.cell(i, 0).formatted_value)
             texts.append(text)
             if text is None:
